@@ -214,6 +214,9 @@ func Units(p *Program, prop string) []*Unit {
 		}
 		us = append(us, VerifyLemma(p, l, prop))
 	}
+	if prop == "C03" {
+		us = append(us, FrameUnit(p, prop))
+	}
 	return us
 }
 
